@@ -481,7 +481,7 @@ def correspond(res, n):
 
 def run(res):
     res.proof_step('Props/C12.v', extra_targets=['Model/EInfo.vo'], kernels_needed=['K_einfo'])
-    n = 300 if res.tier == 'quick' else 6000
+    n = 200 if res.tier == 'quick' else 6000
     if res.broken:
         n = max(n, 1500)      # failing-input search
     correspond(res, n)
